@@ -1,0 +1,32 @@
+//go:build verif
+
+// Package verifexport re-exports internal packages of pkg/p2p/libp2p for the verification
+// harness in /verif (internal/ packages cannot be imported from outside this tree).
+// Built only with the build tag `verif`; nothing changes with the tag off.
+package verifexport
+
+import (
+	"github.com/gauss-project/aurorafs/pkg/p2p/libp2p/internal/handshake"
+	"github.com/gauss-project/aurorafs/pkg/p2p/libp2p/internal/handshake/pb"
+)
+
+// HandshakeService is the internal handshake service (Handshake = dialer side, Handle = listener side).
+type HandshakeService = handshake.Service
+
+// NewHandshake is handshake.New.
+var NewHandshake = handshake.New
+
+// Wire messages of the handshake protocol.
+type (
+	HandshakeSyn        = pb.Syn
+	HandshakeAck        = pb.Ack
+	HandshakeSynAck     = pb.SynAck
+	HandshakeBzzAddress = pb.BzzAddress
+)
+
+// Errors of the handshake service.
+var (
+	ErrHandshakeNetworkIDIncompatible = handshake.ErrNetworkIDIncompatible
+	ErrHandshakeInvalidAck            = handshake.ErrInvalidAck
+	ErrHandshakeInvalidSyn            = handshake.ErrInvalidSyn
+)
